@@ -6,7 +6,12 @@
 //! Writes `sessions.v` (Coq cases for Corr/C16Pty.v) and `sessions.json` into DIR.
 //!
 //! session JSON: {"mode":"dumb"|"xterm","rates":[[size,sleep_us],..],
-//!                "ops":[["w",len,seed],["x",k,arg],["f"],["p",ms],["pn"],["d"],["z",bool],["r",[[size,sleep_us],..]]]}
+//!                "ops":[["w",len,seed],["x",k,arg],["f"],["p",ms],["pn"],["d"],["z",bool],["r",[[size,sleep_us],..]],
+//!                       ["pf",ms,["a","i","z","s100","p"]]   poll under a fault script for the tty writes (verif-hooks):
+//!                                                            EAGAIN, EINTR, Ok(0), short write of 100 bytes, pass
+//!                       ["dp",n]                             frames_drop() if frames_pending() > n (the render loop's policy)
+//!                       ["img",seed,w,h,row,col],["imge"]    execute(Image / ImageErase) through the image handler],
+//!                "end":"drain"|"nodrain", "tee":"/dev/full"}
 #[path = "ptyutil.rs"]
 mod ptyutil;
 
@@ -17,7 +22,8 @@ use std::fmt::Write as _;
 use std::io::Write;
 use std::time::{Duration, Instant};
 use surf_n_term::encoder::{Encoder, TTYEncoder};
-use surf_n_term::{Position, SystemTerminal, Terminal, TerminalCommand};
+use surf_n_term::unix_verif::{self, WriteFault};
+use surf_n_term::{Image, ImageHandler, KittyImageHandler, Position, SixelImageHandler, Size, SurfaceOwned, SystemTerminal, Terminal, TerminalCommand, RGBA};
 
 fn payload(len: usize, seed: u64) -> Vec<u8> {
     let mut r = Rng::new(seed);
@@ -82,12 +88,82 @@ pub struct Outcome {
     pub bytes: usize,
     pub short_polls: usize,
     pub drops_discarding: usize,
+    pub drops_partial_front: usize,
+    pub image_bytes: usize,
+}
+
+/// what the queue looks like, kept only to count how often a drop found the front chunk partly sent
+#[derive(Default)]
+struct Shadow {
+    chunks: std::collections::VecDeque<usize>,
+    front_sent: usize,
+}
+
+impl Shadow {
+    fn write(&mut self, n: usize) {
+        if self.chunks.is_empty() {
+            self.chunks.push_back(0);
+        }
+        *self.chunks.back_mut().unwrap() += n;
+    }
+    fn flush(&mut self) {
+        if self.chunks.back().is_some_and(|c| *c > 0) {
+            self.chunks.push_back(0);
+        }
+    }
+    fn polled(&mut self, mut sent: usize, pending: usize) {
+        while sent > 0 {
+            let Some(front) = self.chunks.front().copied() else { break };
+            let rem = front - self.front_sent.min(front);
+            if sent >= rem {
+                sent -= rem;
+                self.chunks.pop_front();
+                self.front_sent = 0;
+            } else {
+                self.front_sent += sent;
+                sent = 0;
+            }
+        }
+        while self.chunks.len() > pending && self.chunks.front() == Some(&0) {
+            self.chunks.pop_front();
+        }
+    }
+    fn drop_frames(&mut self) -> bool {
+        let partial = self.front_sent > 0 && self.chunks.len() > 1;
+        self.chunks.truncate(1);
+        partial
+    }
+}
+
+fn parse_faults(v: &Value) -> Vec<WriteFault> {
+    v.as_array()
+        .map(|a| {
+            a.iter()
+                .filter_map(|x| x.as_str())
+                .map(|x| match x.as_bytes().first() {
+                    Some(b'a') => WriteFault::WouldBlock,
+                    Some(b'i') => WriteFault::Interrupted,
+                    Some(b'z') => WriteFault::Zero,
+                    Some(b's') => WriteFault::Short(x[1..].parse().unwrap_or(1)),
+                    _ => WriteFault::Pass,
+                })
+                .collect()
+        })
+        .unwrap_or_default()
+}
+
+fn image(seed: u64, w: usize, h: usize) -> Image {
+    let mut r = Rng::new(seed);
+    Image::from(SurfaceOwned::new_with(Size::new(h.max(1), w.max(1)), |_| {
+        let v = r.next();
+        RGBA::new(v as u8, (v >> 8) as u8, (v >> 16) as u8, 255)
+    }))
 }
 
 /// run one session; `epilogue`: what dispose emits (from the calibration session), None for the calibration itself
 pub fn run_session(sess: &Value, epilogue: Option<&[u8]>) -> Outcome {
     // (epilogue None: take whatever followed the constructor's output)
-    let mut out = Outcome { coq: String::new(), json: sess.clone(), error: None, bytes: 0, short_polls: 0, drops_discarding: 0 };
+    let mut out = Outcome { coq: String::new(), json: sess.clone(), error: None, bytes: 0, short_polls: 0, drops_discarding: 0, drops_partial_front: 0, image_bytes: 0 };
     let mode = sess["mode"].as_str().unwrap_or("dumb").to_string();
     let (master, path) = match open_pty() {
         Ok(x) => x,
@@ -110,6 +186,18 @@ pub fn run_session(sess: &Value, epilogue: Option<&[u8]>) -> Outcome {
     };
     let caps = term.capabilities().clone();
     let mut enc = TTYEncoder::new(caps);
+    if let Some(t) = sess["tee"].as_str() {
+        let _ = term.duplicate_output(t);
+    }
+    // a twin of the terminal object's image handler: it sees the same draw / erase calls and says what bytes
+    // they put into the queue
+    let mut twin: Box<dyn ImageHandler> = match format!("{:?}", term.image_handler().kind()).as_str() {
+        "Kitty" => Box::new(KittyImageHandler::new()),
+        "Sixel" => Box::new(SixelImageHandler::new(None)),
+        _ => Box::new(surf_n_term::image::DummyImageHandler),
+    };
+    let mut last_img: Option<(Image, Position)> = None;
+    let mut shadow = Shadow::default();
     // let whatever the constructor queued go out, so the script starts on an empty queue
     let t0 = Instant::now();
     while term.frames_pending() > 0 && t0.elapsed() < Duration::from_secs(5) {
@@ -124,10 +212,12 @@ pub fn run_session(sess: &Value, epilogue: Option<&[u8]>) -> Outcome {
     let mut sops: Vec<String> = vec![];
     let mut jobs: Vec<Value> = vec![];
     let obs = |term: &SystemTerminal| (term.stats().send, term.frames_pending());
-    let do_poll = |term: &mut SystemTerminal, timeout: Option<Duration>, sops: &mut Vec<String>, jobs: &mut Vec<Value>, out: &mut Outcome| {
+    let do_poll = |term: &mut SystemTerminal, timeout: Option<Duration>, sops: &mut Vec<String>, jobs: &mut Vec<Value>, out: &mut Outcome, shadow: &mut Shadow| {
         let before = term.stats().send;
+        shadow.flush();
         let r = term.poll(timeout);
         let (s, p) = (term.stats().send, term.frames_pending());
+        shadow.polled(s - before, p);
         if p > 0 && s > before {
             out.short_polls += 1;
         }
@@ -141,6 +231,7 @@ pub fn run_session(sess: &Value, epilogue: Option<&[u8]>) -> Outcome {
                 let b = payload(o[1].as_u64().unwrap_or(0) as usize, o[2].as_u64().unwrap_or(0));
                 // Write::write on the terminal object appends to the queue and reports the whole length
                 let _ = term.write(&b);
+                shadow.write(b.len());
                 out.bytes += b.len();
                 let (s, p) = obs(&term);
                 sops.push(format!("SW {} (Ob {} {})", pack(&b), s, p));
@@ -151,6 +242,7 @@ pub fn run_session(sess: &Value, epilogue: Option<&[u8]>) -> Outcome {
                 let mut b = vec![];
                 let _ = enc.encode(&mut b, command(ck, arg));
                 let _ = term.execute(command(ck, arg));
+                shadow.write(b.len());
                 out.bytes += b.len();
                 let (s, p) = obs(&term);
                 sops.push(format!("SW {} (Ob {} {})", pack(&b), s, p));
@@ -158,23 +250,55 @@ pub fn run_session(sess: &Value, epilogue: Option<&[u8]>) -> Outcome {
             }
             "f" => {
                 let _ = term.flush();
+                shadow.flush();
                 let (s, p) = obs(&term);
                 sops.push(format!("SF (Ob {} {})", s, p));
                 jobs.push(json!({"op":"f","send":s,"pending":p}));
             }
             "p" => {
                 let ms = o[1].as_u64().unwrap_or(0);
-                do_poll(&mut term, Some(Duration::from_millis(ms)), &mut sops, &mut jobs, &mut out);
+                do_poll(&mut term, Some(Duration::from_millis(ms)), &mut sops, &mut jobs, &mut out, &mut shadow);
             }
             "pn" => {
                 // infinite timeout: returns once an event is there AND the queue is empty; the peer types a key
                 peer.ctl(Ctl::Pause(false));
                 peer.ctl(Ctl::Inject(b"k".to_vec()));
-                do_poll(&mut term, None, &mut sops, &mut jobs, &mut out);
+                do_poll(&mut term, None, &mut sops, &mut jobs, &mut out, &mut shadow);
             }
-            "d" => {
+            "pf" => {
+                let ms = o[1].as_u64().unwrap_or(0);
+                unix_verif::set_write_script(parse_faults(&o[2]));
+                do_poll(&mut term, Some(Duration::from_millis(ms)), &mut sops, &mut jobs, &mut out, &mut shadow);
+                unix_verif::set_write_script(vec![]);
+            }
+            "img" | "imge" => {
+                let mut b = vec![];
+                if k == "img" {
+                    let img = image(o[1].as_u64().unwrap_or(0), o[2].as_u64().unwrap_or(4) as usize, o[3].as_u64().unwrap_or(4) as usize);
+                    let pos = Position { row: o[4].as_u64().unwrap_or(0) as usize, col: o[5].as_u64().unwrap_or(0) as usize };
+                    let _ = twin.draw(&mut b, &img, pos);
+                    let _ = term.execute(TerminalCommand::Image(img.clone(), pos));
+                    last_img = Some((img, pos));
+                } else if let Some((img, pos)) = last_img.take() {
+                    let _ = twin.erase(&mut b, &img, Some(pos));
+                    let _ = term.execute(TerminalCommand::ImageErase(img, Some(pos)));
+                }
+                shadow.write(b.len());
+                out.bytes += b.len();
+                out.image_bytes += b.len();
+                let (s, p) = obs(&term);
+                sops.push(format!("SW {} (Ob {} {})", pack(&b), s, p));
+                jobs.push(json!({"op":k,"len":b.len(),"send":s,"pending":p}));
+            }
+            "d" | "dp" => {
                 let before = term.frames_pending();
+                if k == "dp" && before <= o[1].as_u64().unwrap_or(32) as usize {
+                    continue;
+                }
                 term.frames_drop();
+                if shadow.drop_frames() {
+                    out.drops_partial_front += 1;
+                }
                 let (s, p) = obs(&term);
                 if p < before {
                     out.drops_discarding += 1;
@@ -182,27 +306,38 @@ pub fn run_session(sess: &Value, epilogue: Option<&[u8]>) -> Outcome {
                 sops.push(format!("SD (Ob {} {})", s, p));
                 jobs.push(json!({"op":"d","send":s,"pending":p,"pending_before":before}));
             }
-            "z" => peer.ctl(Ctl::Pause(o[1].as_bool().unwrap_or(false))),
+            "z" => peer.pause(o[1].as_bool().unwrap_or(false)),
             "r" => peer.ctl(Ctl::Rates(rates_of(&o[1]))),
             _ => {}
         }
     }
-    // drain before the terminal object is released
+    // drain before the terminal object is released (unless the session ends with output pending: then
+    // dispose has to get the chunk in flight and the closing sequence out by itself)
     peer.ctl(Ctl::Pause(false));
     let t1 = Instant::now();
-    loop {
-        do_poll(&mut term, Some(Duration::from_millis(2)), &mut sops, &mut jobs, &mut out);
+    let nodrain = sess["end"].as_str() == Some("nodrain");
+    if nodrain {
+        peer.ctl(Ctl::Rates(vec![Rate { size: 65536, sleep_us: 0 }]));
+        std::thread::sleep(Duration::from_millis(5));
+    }
+    while !nodrain {
+        do_poll(&mut term, Some(Duration::from_millis(2)), &mut sops, &mut jobs, &mut out, &mut shadow);
         if term.frames_pending() == 0 {
             break;
         }
-        if t1.elapsed() > Duration::from_secs(20) {
-            out.error = Some("queue did not drain in 20 s".into());
+        if t1.elapsed() > Duration::from_secs(6) {
+            out.error = Some("queue did not drain in 6 s".into());
             break;
         }
     }
     peer.ctl(Ctl::Rates(vec![Rate { size: 65536, sleep_us: 0 }]));
     drop(term);
-    let received = peer.finish();
+    let mut received = peer.finish();
+    if received.len() > 4 * out.bytes + (1 << 16) {
+        // runaway duplication: keep the case file small, the session is a failing input anyway
+        out.error = Some(format!("the tty received {} bytes although only {} were written", received.len(), out.bytes));
+        received.truncate(4096);
+    }
     let p0 = received[..send0.min(received.len())].to_vec();
     let epi: Vec<u8> = match epilogue {
         Some(e) => e.to_vec(),
@@ -229,11 +364,62 @@ fn rates_json(r: &[Rate]) -> Value {
     Value::Array(r.iter().map(|x| json!([x.size, x.sleep_us])).collect())
 }
 
+fn gen_faults(rng: &mut Rng) -> Value {
+    let n = 1 + rng.below(6);
+    Value::Array(
+        (0..n)
+            .map(|_| match rng.below(6) {
+                0 => json!("a"),
+                1 => json!("i"),
+                2 => json!("z"),
+                3 => json!(format!("s{}", 1 + rng.below(300))),
+                4 => json!(format!("s{}", 1000 + rng.below(5000))),
+                _ => json!("p"),
+            })
+            .collect(),
+    )
+}
+
+/// the render loop of terminal.rs: poll; if more than 32 frames are pending drop them; write the next frame
+fn gen_render_session(rng: &mut Rng) -> Value {
+    let mut ops: Vec<Value> = vec![];
+    ops.push(json!(["w", 3000 + rng.below(6000), rng.next() % 1000000]));
+    ops.push(json!(["pf", 0, ["s700"]])); // the first frame is in flight, partly sent
+    ops.push(json!(["z", true]));
+    let frames = 36 + rng.below(8);
+    for i in 0..frames {
+        ops.push(json!(["p", 0]));
+        ops.push(json!(["dp", 32]));
+        ops.push(json!(["w", 20 + rng.below(400), rng.next() % 1000000]));
+        if i == frames / 2 {
+            ops.push(json!(["pf", 0, ["a", "i"]]));
+        }
+    }
+    ops.push(json!(["z", false]));
+    ops.push(json!(["p", 3]));
+    json!({"mode": "dumb", "rates": [[4096, 50]], "ops": ops, "end": if rng.chance(1, 2) { "nodrain" } else { "drain" }})
+}
+
 pub fn gen_session(rng: &mut Rng, budget: usize, idx: usize) -> Value {
-    let mode = if idx % 4 == 3 { "xterm" } else { "dumb" };
+    if idx % 5 == 2 {
+        return gen_render_session(rng);
+    }
+    let mode = if idx % 5 == 3 { "xterm" } else { "dumb" };
     let rates = gen_rates(rng);
     let mut ops: Vec<Value> = vec![];
     let mut left = budget;
+    // every session starts with a frame that goes out under a fault script: EAGAIN, EINTR, Ok(0) and a short
+    // write hit a non-empty front slice, then a drop finds the front chunk partly sent
+    ops.push(json!(["w", 2000 + rng.below(3000), rng.next() % 1000000]));
+    ops.push(json!(["f"]));
+    ops.push(json!(["w", 100 + rng.below(300), rng.next() % 1000000]));
+    ops.push(json!(["pf", 0, ["a"]]));
+    ops.push(json!(["pf", 0, ["i"]]));
+    ops.push(json!(["pf", 0, ["z"]]));
+    ops.push(json!(["pf", 2, ["s150", "a", "s1", "z", "i", "s40"]]));
+    ops.push(json!(["w", 50, 11]));
+    ops.push(json!(["f"]));
+    ops.push(json!(["d"]));
     let n = 12 + rng.below(30);
     let mut paused = false;
     for _ in 0..n {
@@ -252,9 +438,20 @@ pub fn gen_session(rng: &mut Rng, budget: usize, idx: usize) -> Value {
                     ops.push(json!(["f"]));
                 }
             }
-            35..=44 => ops.push(json!(["x", rng.below(7), rng.below(100000)])),
+            35..=41 => ops.push(json!(["x", rng.below(7), rng.below(100000)])),
+            42..=44 => {
+                if mode == "xterm" {
+                    ops.push(json!(["img", rng.next() % 100000, 2 + rng.below(60), 2 + rng.below(40), rng.below(30), rng.below(80)]));
+                    if rng.chance(1, 3) {
+                        ops.push(json!(["imge"]));
+                    }
+                } else {
+                    ops.push(json!(["x", rng.below(7), rng.below(100000)]));
+                }
+            }
             45..=54 => ops.push(json!(["f"])),
-            55..=79 => ops.push(json!(["p", if rng.chance(2, 3) { 0 } else { 1 + rng.below(6) }])),
+            55..=72 => ops.push(json!(["p", if rng.chance(2, 3) { 0 } else { 1 + rng.below(6) }])),
+            73..=79 => ops.push(json!(["pf", rng.below(4), gen_faults(rng)])),
             80..=83 => {
                 if !paused {
                     ops.push(json!(["pn"]))
@@ -281,7 +478,8 @@ pub fn gen_session(rng: &mut Rng, budget: usize, idx: usize) -> Value {
         ops.push(json!(["w", 100, 7]));
         ops.push(json!(["z", false]));
     }
-    json!({"mode": mode, "rates": rates_json(&rates), "ops": ops})
+    let end = if rng.chance(1, 3) { "nodrain" } else { "drain" };
+    json!({"mode": mode, "rates": rates_json(&rates), "ops": ops, "end": end})
 }
 
 pub fn main(args: &[String]) -> i32 {
@@ -307,6 +505,8 @@ pub fn main(args: &[String]) -> i32 {
     }
     let _ = std::fs::create_dir_all(&out);
     std::panic::set_hook(Box::new(|_| {}));
+    // the image handler of sessions with an xterm-like TERM (read once per process by the crate)
+    std::env::set_var("SURFNTERM", if seed % 2 == 1 { "image=kitty" } else { "image=sixel" });
     let (count, budget) = if tier == "thorough" { (14, 600_000) } else { (5, 170_000) };
     let sessions: Vec<Value> = match &replay {
         Some(f) => {
@@ -315,7 +515,11 @@ pub fn main(args: &[String]) -> i32 {
         }
         None => {
             let mut rng = Rng::new(seed ^ 0x16161616);
-            (0..count).map(|i| gen_session(&mut rng, budget, i)).collect()
+            let mut v: Vec<Value> = (0..count).map(|i| gen_session(&mut rng, budget, i)).collect();
+            // the debugging tee on a device that fails every write: the output must still arrive exactly once
+            v.push(json!({"mode": "dumb", "rates": [[4096, 100]], "tee": "/dev/full", "end": "drain",
+                          "ops": [["w", 30000, 5], ["f"], ["p", 0], ["p", 1], ["w", 20000, 6], ["p", 2], ["p", 0]]}));
+            v
         }
     };
     // calibration: what does an idle session emit (constructor output, then dispose's closing sequence)?
@@ -337,6 +541,9 @@ pub fn main(args: &[String]) -> i32 {
     let mut total = 0usize;
     let mut short_polls = 0usize;
     let mut drops = 0usize;
+    let mut partial_drops = 0usize;
+    let mut image_bytes = 0usize;
+    let faults0 = unix_verif::write_fault_counts();
     for (i, s) in sessions.iter().enumerate() {
         let mode = s["mode"].as_str().unwrap_or("dumb").to_string();
         let _ = std::fs::write(format!("{}/current_session.json", out), s.to_string());
@@ -349,6 +556,8 @@ pub fn main(args: &[String]) -> i32 {
                 bytes: 0,
                 short_polls: 0,
                 drops_discarding: 0,
+                drops_partial_front: 0,
+                image_bytes: 0,
             },
         };
         if let Some(e) = &r.error {
@@ -361,15 +570,24 @@ pub fn main(args: &[String]) -> i32 {
         total += r.bytes;
         short_polls += r.short_polls;
         drops += r.drops_discarding;
+        partial_drops += r.drops_partial_front;
+        image_bytes += r.image_bytes;
         js.push(r.json);
     }
     writeln!(coq, "\n].\nEval vm_compute in (pty_report 0%N sessions).").unwrap();
     let _ = std::fs::write(format!("{}/sessions.v", out), coq);
+    let f1 = unix_verif::write_fault_counts();
     let meta = json!({"sessions": js, "errors": errors, "bytes_written": total,
-                      "polls_returning_with_output_pending": short_polls, "drops_discarding_frames": drops});
+                      "polls_returning_with_output_pending": short_polls, "drops_discarding_frames": drops,
+                      "drops_with_front_chunk_partly_sent": partial_drops, "image_bytes": image_bytes,
+                      "forced_short_writes": f1[0] - faults0[0], "forced_zero_byte_writes": f1[1] - faults0[1],
+                      "forced_eagain": f1[2] - faults0[2], "forced_eintr": f1[3] - faults0[3]});
     let _ = std::fs::write(format!("{}/sessions.json", out), serde_json::to_string(&meta).unwrap());
     let _ = std::fs::remove_file(format!("{}/current_session.json", out));
-    println!("pty16: {} sessions, {} bytes, {} partial polls, {} discarding drops, {} errors", js.len(), total, short_polls, drops, errors.len());
+    println!(
+        "pty16: {} sessions, {} bytes ({} through the image handler), {} partial polls, {} discarding drops ({} with the front chunk partly sent), forced short/zero/EAGAIN/EINTR writes {}/{}/{}/{}, {} errors",
+        js.len(), total, image_bytes, short_polls, drops, partial_drops, f1[0] - faults0[0], f1[1] - faults0[1], f1[2] - faults0[2], f1[3] - faults0[3], errors.len()
+    );
     if errors.is_empty() {
         0
     } else {
